@@ -293,9 +293,19 @@ class Body:
             if k == "goto":
                 edges.append((t["target"], ("goto",)))
             elif k == "switch":
-                for v, tgt in t["targets"]:
-                    edges.append((tgt, ("sw", v)))
-                edges.append((t["otherwise"], ("sw", "otherwise")))
+                op = t["op"]
+                if op["k"] == "const" and "bits" in op and "item" not in op:
+                    # constant condition (cfg!(debug_assertions) in `debug_assert!`): only the
+                    # matching edge is feasible, so compiled-out material is never a guard
+                    hit = [tgt for v, tgt in t["targets"] if v == op["bits"]]
+                    if hit:
+                        edges.append((hit[0], ("sw", op["bits"])))
+                    else:
+                        edges.append((t["otherwise"], ("sw", "otherwise")))
+                else:
+                    for v, tgt in t["targets"]:
+                        edges.append((tgt, ("sw", v)))
+                    edges.append((t["otherwise"], ("sw", "otherwise")))
             elif k in ("call", "drop", "assert"):
                 if t.get("target") is not None:
                     edges.append((t["target"], ("ret",)))
@@ -479,7 +489,15 @@ class Body:
         if k == "un":
             return ("un", rv["op"], self.operand_expr(rv["a"], stack))
         if k == "cast":
-            return ("cast", rv["ty"], self.operand_expr(rv["op"], stack))
+            inner = self.operand_expr(rv["op"], stack)
+            ck = rv.get("ck", "")
+            if ck.startswith("PointerCoercion") or ck in ("PtrToPtr", "Transmute") or ck.startswith("PointerExposeProvenance") or ck.startswith("PointerWithExposedProvenance"):
+                # Box<T> deref goes through `.0.pointer` + raw pointer cast: transparent
+                if inner[0] == "proj" and len(inner[2]) >= 2 and inner[2][-1] == "pointer" and inner[2][-2] == "0":
+                    rest = inner[2][:-2]
+                    return ("proj", inner[1], rest) if rest else inner[1]
+                return inner
+            return ("cast", rv["ty"], inner)
         if k == "discr":
             return ("discr", self.place_expr(rv["pl"], stack), rv.get("ty"))
         if k == "agg":
@@ -594,6 +612,8 @@ class Body:
 
     def node_at(self, loc):
         st = self.stmts(loc.bb)
+        if loc.idx < 0:
+            return {"sp": self.fn.get("sp")}
         if loc.idx < len(st):
             return st[loc.idx]
         return self.term(loc.bb)
